@@ -910,6 +910,28 @@ m("C20", "close-nil-errch", GS,
   "",
   "C20.5", "close blocks on a nil channel")
 
+# ---------------- regression mutants for seeded changes first missed, now caught
+m("C06", "typed-node-not-representation", "channels/internal/internalchannel.go",
+  "		node = sn.Node\n		if tn, ok := node.(schema.TypedNode); ok {\n			node = tn.Representation()\n		}",
+  "		node = sn.Node\n		if tn, ok := node.(schema.TypedNode); ok {\n			_ = tn.Representation()\n		}",
+  "C06.1", "typed vouchers/selectors stored in type-level form differ after reopen", "seeded/C06b")
+m("C11", "pause-signal-closes", RC,
+  "	if receiveErr == datatransfer.ErrPause {\n		return r.manager.transport.(datatransfer.PauseableTransport).PauseChannel(ctx, chid)\n	}\n\n	if receiveErr != nil {",
+  "	if receiveErr == datatransfer.ErrPause && response != nil {\n		return r.manager.transport.(datatransfer.PauseableTransport).PauseChannel(ctx, chid)\n	}\n\n	if receiveErr != nil {",
+  "C04.5", "a stay-paused outcome of a bare update closes the transport channel", "seeded/C11b")
+m("C14", "duplicate-add-returns-live-monitor", CM,
+  "		log.Warnf(\"ignoring add %s channel %s: %s channel with that id already exists\",\n			tp, chid, tp)\n		return nil",
+  "		log.Warnf(\"ignoring add %s channel %s: %s channel with that id already exists\",\n			tp, chid, tp)\n		return m.channels[chid]",
+  "C14.6", "a failed restart send shuts down the live monitor of the channel", "seeded/C14b")
+m("C15", "reset-error-shadows-write-error", NET,
+  "		if err2 := s.Reset(); err2 != nil {\n			log.Error(err)\n			span.RecordError(err2)\n			span.SetStatus(codes.Error, err2.Error())\n			return err2\n		}",
+  "		if err = s.Reset(); err != nil {\n			log.Error(err)\n			span.RecordError(err)\n			span.SetStatus(codes.Error, err.Error())\n			return err\n		}",
+  "C15.2", "a failed write is reported as success when the reset succeeds", "seeded/C15b")
+m("C18", "duplicate-request-fails-existing", RR,
+  "	result, err := m.acceptRequest(chid, incoming)\n",
+  "	result, err := m.acceptRequest(chid, incoming)\n	if err != nil {\n		_ = m.channels.Error(chid, err)\n	}\n",
+  "C18.3", "a duplicate new-request fails the existing healthy channel", "seeded/C18b")
+
 by = collections.defaultdict(list)
 for x in M:
     p = x.pop("prop")
